@@ -10,7 +10,7 @@ from vlib import arrio, core, twoconf  # noqa: E402
 
 PROP = 'C01'
 MODEL_MODULES = ['TenpyModel.Util.J', 'TenpyModel.Core.ArrCodec']
-PROPS_MODULES = ['TenpyModel.C01.PropsLabels', 'TenpyModel.C01.Props', 'TenpyModel.C01.PropsSort', 'TenpyModel.C01.PropsMerge', 'TenpyModel.C01.PropsA', 'TenpyModel.C01.PropsB', 'TenpyModel.C01.PropsB2', 'TenpyModel.C01.PropsC']
+PROPS_MODULES = ['TenpyModel.C01.PropsLabels', 'TenpyModel.C01.Props', 'TenpyModel.C01.PropsSort', 'TenpyModel.C01.PropsMerge', 'TenpyModel.C01.PropsWrappers', 'TenpyModel.C01.PropsA', 'TenpyModel.C01.PropsB', 'TenpyModel.C01.PropsB2', 'TenpyModel.C01.PropsC']
 LEVEL = 'proof'
 BUDGET = {'quick': 175, 'thorough': 1700}
 RULE = ('random *programs* (1-8 steps quick, 1-20 thorough) over the public tensor operations, typed by executing '
@@ -59,6 +59,7 @@ def gen_cases(ctx, tag, n, max_steps):
     out = []
     for i in range(n):
         rng = random.Random(f'C01:{ctx.seed}:{tag}:{i}')   # the same stream for C01 and C04
+        g.ex.io.set_default_names(None)
         try:
             # 2 of 11 programs (18 %) of the quick tier, 1 of 11 of the thorough tier: high-rank fusion stream
             if i % 11 == 0 or (ctx.quick and i % 11 == 5):
@@ -74,6 +75,8 @@ def gen_cases(ctx, tag, n, max_steps):
         except Exception:
             continue
         c['id'] = f'{tag}:{i}'
+        if c.get('operands') and c['operands'][0].get('names') and 'names' not in c:
+            c['names'] = c['operands'][0]['names']     # default charge names of every leg built by the program
         if c['steps']:
             out.append(c)
     return out
@@ -86,7 +89,10 @@ KERNEL_SENSITIVE = {'iadd_prefactor_other', 'tensordot'}   # the steps whose mod
 
 
 def lean_arr(d):
-    return {k: d[k] for k in ('mods', 'legs', 'qtotal', 'labels', 'qdata', 'blocks', 'sorted')}
+    out = {k: d[k] for k in ('mods', 'legs', 'qtotal', 'labels', 'qdata', 'blocks', 'sorted')}
+    if d.get('names') is not None:
+        out['names'] = d['names']
+    return out
 
 
 def lean_line(case, out, cfg):
@@ -148,6 +154,11 @@ def first_diff(a, b, path=''):
     return f'{path}: {a!r} vs {b!r}'[:300]
 
 
+def names_compatible(a, b):
+    """ChargeInfo.__eq__ on the names: equal up to missing ('') names"""
+    return len(a) == len(b) and all(x == y or x == '' or y == '' for x, y in zip(a, b))
+
+
 def impl_view(rec):
     """Canonical, dtype-free view of what the implementation did in a step."""
     r = rec.get('res', {})
@@ -205,6 +216,9 @@ def diff_model(st, rec, m):
         for k in ARR_KEYS:
             if v['arr'][k] != m['arr'].get(k):
                 return (k, first_diff(v['arr'][k], m['arr'].get(k), k))
+        impl_names = rec['res']['arr'].get('names')
+        if impl_names is not None and m.get('names') is not None and not names_compatible(impl_names, m['names']):
+            return ('names', f'charge names {impl_names} vs model {m["names"]}')
     elif 'nat' in v:
         if v['nat'] != m.get('nat'):
             return ('value', f'{v["nat"]} vs {m.get("nat")}')
